@@ -40,13 +40,25 @@ def make_mdp(case, R):
     start = case.get("start")
     init = DictDistribution({sl[start]: 1.0}) if start is not None else DictDistribution({l: 1.0 / nS for l in sl})
     g = int(fl(case["gamma"])) if case.get("gamma_style") == "int" else fl(case["gamma"])
+    # ONE action list object is returned for every state, and one distribution object per distinct row is
+    # returned on every call (caller-owned, persistent objects); shared_state() snapshots them
+    shared_actions = list(al)
+    dists = {}
+
+    def nsd(s, a):
+        row = tuple(T[si[s]][ai[a]])
+        if row not in dists:
+            dists[row] = DictDistribution({sl[n]: p for n, p in enumerate(row) if p > 0})
+        return dists[row]
     mdp = QuickTabularMDP(
-        next_state_dist=lambda s, a: DictDistribution({sl[n]: p for n, p in enumerate(T[si[s]][ai[a]]) if p > 0}),
+        next_state_dist=nsd,
         reward=lambda s, a, ns: R[si[s]][ai[a]][si[ns]],
-        actions=lambda s: tuple(al),
+        actions=lambda s: shared_actions,
         initial_state_dist=init,
         is_absorbing=lambda s: False,
         discount_rate=g)
+    mdp._c19_shared = lambda: (list(shared_actions), sorted((repr(k), sorted((repr(x), p) for x, p in d.items())) for k, d in dists.items()),
+                               sorted((repr(x), p) for x, p in init.items()))
     return mdp, si, ai
 
 
@@ -93,18 +105,36 @@ def one(case, pl):
             PLANNERS[key] = EntropyRegularizedPolicyIteration(iterations=case["iterations"], entropy_weight=weight(case, torch),
                                                               policy_prior=prior)
         planner = PLANNERS[key]
-        same = None
+        same, stale = None, None
+        prior_before = None if prior is None else prior.clone()
+        before = mdp._c19_shared()
         if case.get("decoy"):
+            # same planner object: (1) another MDP with the same labels and other numbers, (2) the real MDP,
+            # (3) a LARGER MDP over the same labels plus one, then the result of (2) is read for the first time,
+            # (4) the real problem constructed again from scratch
             other, _, _ = make_mdp(case, [[[1.0 - x for x in row] for row in m] for m in R])
             planner.plan_on(other)
-            first = tables(planner.plan_on(mdp), sl, al)
-        res = planner.plan_on(mdp)
-        pi, q, v = tables(res, sl, al)
-        if case.get("decoy"):
-            same = first == (pi, q, v)
+            res = planner.plan_on(mdp)
+            big = dict(case)
+            nS2 = nS + 1
+            l0 = case["state_labels"][0]
+            extra = "zz" if isinstance(l0, str) else ([9, 9] if isinstance(l0, list) else max(case["state_labels"]) + 1)
+            # one state more, the SAME labels for the others (a result table aliased between calls would be overwritten)
+            big.update({"nS": nS2, "state_labels": list(case["state_labels"]) + [extra], "start": None,
+                        "T": [[[("1" if n == (s + a + 1) % nS2 else "0") for n in range(nS2)] for a in range(nA)] for s in range(nS2)]})
+            other2, _, _ = make_mdp(big, [[[float((s * 7 + a * 3 + n) % 5) for n in range(nS2)] for a in range(nA)] for s in range(nS2)])
+            planner.plan_on(other2)
+            pi, q, v = tables(res, sl, al)                     # first read of the earlier result, after the later call
+            mdp2, _, _ = make_mdp(case, R)
+            again = tables(planner.plan_on(mdp2), sl, al)
+            same = again == (pi, q, v)
+        else:
+            res = planner.plan_on(mdp)
+            pi, q, v = tables(res, sl, al)
+        mutated = before != mdp._c19_shared() or (prior is not None and not torch.equal(prior, prior_before))
         return {"converged": bool(res.converged), "iterations": int(res.iterations),
                 "pi": pi, "q": q, "v": v, "states": [si[s] for s in sl], "actions": [ai[a] for a in al],
-                "views_touched": touched, "repeat_same": same,
+                "views_touched": touched, "repeat_same": same, "inputs_mutated": bool(mutated),
                 "q_mat_equal_table": bool(all(float(res._qvaluemat[i, j]) == float(res.Q[s][a])
                                               for i, s in enumerate(sl) for j, a in enumerate(al)))}
     tf = tens(case["T"], torch)
@@ -117,7 +147,7 @@ def one(case, pl):
     if case.get("requires_grad"):
         tf.requires_grad = True
     prior = None if case["pi0"] is None else tens(case["pi0"], torch)
-    init = None if case.get("init") is None else tens(case["init"], torch)
+    init = None if case.get("init") is None else (prior if case["init"] == "prior" else tens(case["init"], torch))
     g = int(fl(case["gamma"])) if case.get("gamma_style") == "int" else fl(case["gamma"])
     w = weight(case, torch)
 
@@ -126,19 +156,20 @@ def one(case, pl):
             transition_matrix=tf, reward_matrix=rf, discount_rate=g, entropy_weight=w,
             n_planning_iters=case["n_iters"], policy_prior=prior, initial_policy=init,
             check_convergence=True, force_nonzero_probabilities=case["force_nonzero"])
+    inputs = [x for x in (tf, rf, prior, init, w) if isinstance(x, torch.Tensor)]
+    keep = [x.detach().clone() for x in inputs]
     same = None
     if case.get("repeat"):
-        keep = [x.clone() for x in (tf, rf) + ((prior,) if prior is not None else ())]
         r0 = call()
         r = call()
         same = bool(torch.equal(r0.policy, r.policy) and torch.equal(r0.state_values, r.state_values)
-                    and torch.equal(r0.action_values, r.action_values)
-                    and all(torch.equal(a, b) for a, b in zip(keep, (tf, rf) + ((prior,) if prior is not None else ()))))
+                    and torch.equal(r0.action_values, r.action_values))
     else:
         r = call()
+    mutated = not all(torch.equal(a, b.detach()) for a, b in zip(keep, inputs))
     return {"converged": bool(r.converged), "iterations": int(r.iterations),
             "pi": mat(r.policy.detach()), "q": mat(r.action_values.detach()),
-            "v": [fj(x) for x in r.state_values.detach().tolist()], "repeat_same": same,
+            "v": [fj(x) for x in r.state_values.detach().tolist()], "repeat_same": same, "inputs_mutated": bool(mutated),
             "dtypes": [str(r.policy.dtype), str(r.action_values.dtype), str(r.state_values.dtype)]}
 
 
